@@ -9,15 +9,16 @@ ID = "C08"
 PROPS = "props/C08.v"
 
 
-def judge_c08(case, log):
+def judge_c08(case, log, history=None, nseries=None):
     """The property statement judged on what the recording resampling function and the sinks were
     handed (independent of the Coq model).  Window clause only for time-ordered input (the
     property's domain); the never-future / never-invalid / None-iff-empty clauses always."""
     out = []
     p = case["period"]
     an, ad = case["age"]
-    for sid in range(len(case["series"])):
-        h = R.series_history(case, log, sid)
+    history = history or R.series_history
+    for sid in range(nseries if nseries is not None else len(case["series"])):
+        h = history(case, log, sid)
         if not h:
             continue
         valid_ts = [ev[1][0] for ev in h if ev[0] == "recv" and ev[1][2] not in (1, 2)]
@@ -177,8 +178,56 @@ class C08Stream(R.ScenarioStream):
         return sorted(set(out))
 
 
+class ActorBurstStream(R.Stream):
+    """The production wiring (ComponentMetricsResamplingActor, registry channels) judged by the same window oracle and
+    the same Coq model: back-to-back bursts in front of a small initial buffer."""
+    name = "actor_burst"
+    coq_header = R.C08_HEADER
+    n_quick = 60
+    n_thorough = 1000
+
+    def gen(self, rng, tier):
+        for _ in range(self.n_quick if tier == "quick" else self.n_thorough):
+            yield R.gen_actor_burst_case(rng, tier)
+
+    def run_impl(self, case):
+        return R.run_actor_scenario(case)
+
+    def to_coq(self, case, obs):
+        return R.c08_term(case, obs, R.actor_series_history)
+
+    def oracle(self, case, obs):
+        return judge_c08(case, obs["log"], R.actor_series_history, len(case["metrics"]))
+
+    def key(self, case, obs):
+        if not any(e[0] == "fn" for e in obs["log"]):
+            return None
+        return json.dumps([case["period"], case["age"], case["init_len"], case["start"], case["metrics"]], sort_keys=True)
+
+    def labels(self, case, obs):
+        out = ["actor_path", f"init_len={case['init_len']}"]
+        h = R.actor_series_history(case, obs["log"], 0)
+        caps = {ev[5] for ev in h if ev[0] == "tick"}
+        if any(c is not None and c > case["init_len"] for c in caps):
+            out.append("buffer_grew_beyond_initial_len")
+        if any(ev[0] == "tick" and len(ev[2]) > case["init_len"] for ev in h):
+            out.append("window_larger_than_initial_len")
+        n = max((sum(1 for x in case["metrics"][0]["samples"] if x[0] == at) for at in {x[0] for x in case["metrics"][0]["samples"]}), default=0)
+        out.append(f"burst<= {10 * ((n + 9) // 10)}")
+        return out
+
+    def shrink(self, case):
+        m = case["metrics"][0]
+        n = len(m["samples"])
+        for a, b in ((0, n // 2), (n // 2, n), (n // 4, n // 2), (n // 2, 3 * n // 4)):
+            if b > a:
+                yield {**case, "metrics": [{**m, "samples": m["samples"][:a] + m["samples"][b:]}]}
+        if case["duration"] > 4 * case["period"]:
+            yield {**case, "duration": case["duration"] - 2 * case["period"]}
+
+
 def streams():
-    return [C08Stream()]
+    return [C08Stream(), ActorBurstStream()]
 
 
 TRUSTED = ["async_solipsism 0.7 virtual event loop + time_machine slaved to it",
